@@ -3,6 +3,16 @@
 import json
 
 TEXTS = {
+ "C05": ("span-marking differential against fmt, bounded-exhaustive over leaves x classifications x shapes x directives x registry configurations",
+         "On the fmt side every unsafe scalar leaf is replaced by a Formatter that brackets its rendering with marker bytes and forwards the active directive; deleting the bracketed spans (keeping line feeds) gives the expected text outside envelopes, without any hand-written format parser. Enumerated: ~50 leaf variants (12 scalars and a Stringer x unsafe / Safe() / SafeValue type / registered type / Unsafe(SafeValue), a SafeFormatter, nil) alone over the quick directive space, in ordered pairs inside 8 container shapes (incl. containers wrapped in Safe()) and as two top-level operands, under 2 (quick) / all 8 (thorough) registry configurations (registry reset through a hook).",
+         "Directives are kept only when fmt reports no %! for the operands (the property says 'verbs valid for their operands'); []byte, complex and pointers are composites left to C02/C04.", "5/C05"),
+ "C06": ("bounded-exhaustive enumeration of values x wrapper words x directives and of scripted re-entrant formatting methods under wrappers, with an envelope-coverage oracle and character comparison against fmt",
+         "Every value of the universe (~130) under every wrapper word of length <=2 (quick) / <=3 (thorough) over {Safe, Unsafe} x mid/quick directive space: outermost Unsafe => the whole rendering lies inside envelopes; outermost Safe and no own classification => no marker at all; characters equal fmt's for the bare value. Every Format/SafeFormat/hook body of <=2/3 ops over 10 ops (Safe*/Unsafe*/Write/Fprintf on the state/re-entrant Print and Printf with safe and unsafe operands/nested SafeFormatter/panic) x 3 routes x all 14 wrapper words x 6 verbs. Repeated with an error hook installed.",
+         "Safe() clause is not applied to values with panicking methods (C11 makes the payload unsafe) nor to bodies that print a RedactableString (own classification).", "5/C06"),
+ "C08": ("bounded-exhaustive enumeration of library-produced redactables x directives x holder shapes with identity / homomorphism oracles, and of Join/Sprintf lists with the concatenation laws",
+         "13 redactables obtained from the library by up to two rounds of printing/joining (envelopes, LF, escaped markers, empty, guard) x quick/full directives (minus %T,%p) x 14 holder shapes x {string, bytes}: top level must be the identity; inside a holder the output must equal the output for a marker-free placeholder with the redactable substituted. Sprint(Sprint(a))==Sprint(a) for 3 rounds over universe singles and pairs; Join/JoinTo(StringBuilder, printer)/Sprintf over all lists of <=3 x 3 delimiters equal plain concatenation and Redact/StripMarkers distribute.",
+         "Deeper print/join histories are represented by the 3-round fixpoint check.", "5/C08"),
+
  "C01": ("bounded-exhaustive enumeration of every producer of redactable text on the real code (call sequences on 8 implementations, explicit-state search over buffer states, 5 formatting entry points on directive x value products, format programs, all short byte strings, Join lists) with a byte-scanner well-formedness oracle on every output",
          "Every string produced in the explored spaces is scanned by an independent byte-level automaton: markers strictly alternate, and after deleting the library's delimiters no marker remains (data can neither forge nor re-assemble one). Spaces: all SafeWriter call sequences to depth 3 (incl. invalid runes/bytes) on 8 implementations; breadth-first search over canonical buffer states; quick 5k / thorough ~37k directives x ~130 values x 2 instantiations x 5 entry points; all formats of <=3/4 tokens and all 1-2 byte formats; all byte strings to length 5/7 through 11 producers; all Join lists of <=3 over 9 redactables x 3 delimiters.",
          "Values outside the universe and payloads longer than the alphabets' symbols are not explored; the argument that the alphabets suffice is per mechanism (DESIGN section 4).", "5/C01"),
@@ -41,7 +51,7 @@ TEXTS = {
          "The whole product 32 flag subsets x 8 widths x 6 precisions x 58 verbs is executed under fmt's State and redact's printer (Formatter and SafeFormatter entry); state after re-printing with the reproduced format must equal the original state; MakeFormat is compared with fmt.FormatString; Safe/Unsafe/forwarder fidelity under fmt for 19 operands x the product. Exhaustive in both tiers (quick thins widths/precisions for the operand product only).",
          "The reference is this sandbox's fmt (Go 1.23.5).", "5/C14"),
 }
-CLAIMED_IDS = ["C01", "C02", "C03", "C04", "C07", "C09", "C10", "C11", "C13", "C14", "C15", "C16"]
+CLAIMED_IDS = ["C01", "C02", "C03", "C04", "C05", "C06", "C07", "C08", "C09", "C10", "C11", "C13", "C14", "C15", "C16"]
 CLAIMED = {k: TEXTS[k] for k in CLAIMED_IDS}
 
 PENDING = {}
